@@ -62,8 +62,15 @@ impl<T: Write + Send + 'static> Worker<T> {
             let handle_result = self.handle_try_recv(&try_recv_result);
             worker_state = handle_result?;
         }
-        self.writer.flush()?;
-        Ok(worker_state)
+        let flushed = self.writer.flush();
+        match worker_state {
+            // The worker has been told to stop (or every sender is gone): a
+            // failing flush must not hide that, or the worker thread would
+            // carry on (waiting forever, or spinning on a disconnected
+            // channel) and never release the writer.
+            WorkerState::Shutdown | WorkerState::Disconnected => Ok(worker_state),
+            _ => flushed.map(|()| worker_state),
+        }
     }
 
     /// Creates a worker thread that processes a channel until it's disconnected
